@@ -355,7 +355,7 @@ class G:
 # ---------------------------------------------------------------------- printer
 # C20 prints programs with a layout pass afterwards: statement separators and block braces are then emitted as the control
 # characters below, and a node carrying a label "lab" is preceded by \x01<lab>\x02 so that the layout pass knows where it starts.
-LAYOUT = {"sep": "; ", "lb": "{ ", "rb": " }", "nl": ";\n"}
+LAYOUT = {"sep": "; ", "lb": "{ ", "rb": " }", "nl": ";\n", "comma": ", "}
 
 
 def q(s):
@@ -389,7 +389,7 @@ def pe(e):
     if k == "tern":
         return f"({pe(e['c'])} ? {pe(e['t'])} : {pe(e['f'])})"
     if k == "call":
-        return f"{mark(e)}{e['f']}({', '.join(pe(a) for a in e['a'])})"
+        return f"{mark(e)}{e['f']}({LAYOUT['comma'].join(pe(a) for a in e['a'])})"
     if k == "lambda":
         caps = "[" + ", ".join(e["caps"]) + "]" if e["caps"] else ""
         return f"fun{caps}({', '.join(p['n'] for p in e['params'])}) " + blk(e['b'])
